@@ -120,4 +120,10 @@ CHECKS = {
         "text": "The SART iteration is treated as a history: the returned iterate and the whole convergence list must equal the reference after k = 1,2,3,... iterations, including the stopping decision; non-negativity and fixed points are checked. NNLS results must satisfy the KKT conditions of the stacked problem, LSQ the normal equations, SVD the exact rational W^+ b (fractions), and reported residual norms must equal |Cx-d| recomputed.",
         "note": "Rounding-ambiguous stop decisions are accepted either way and counted; a failed NNLS certificate is attributed to scipy (known finding) only if scipy.optimize.nnls called directly on the documented stacked system returns the same vector, otherwise to the wrapper.",
     },
+    "C17": {
+        "engine": "L",
+        "technique": "exhaustive enumeration of all simple lattice polygons (3x3 lattice 3..6 vertices, 4x4 3..5; thorough 3..8 / 3..6) x placements (dyadic, axis-touching, non-dyadic) x every cyclic rotation and both orientations x input container kinds; exact rational area/centroid; the triangle-selection variate enumerated through the guard hook at every cumulative-area boundary +-1 ulp, interval midpoints and the extremes",
+        "text": "Area, centroid, volume (= 2 pi r_c A), invariance under vertex order, triangulation is an exact partition, grid total volume, constants reproduced exactly; the selection map of emissivity_from_function is decided for every value of the variate because it is piecewise constant between the enumerated points (bisection on a sorted array), so with raysect's point_triangle uniform inside a triangle the estimator is unbiased. All real-code calls of a case run in a forked child so that an out-of-range read (garbage or segfault) maps to one signature.",
+        "note": "Trusts raysect triangulate2d and point_triangle; area/centroid tolerance rel 1e-12 plus the forward error bound of the documented shoelace sums for non-dyadic placements; with rounded coordinates either neighbour is accepted inside a band of 2^-52 (256 max|r| max|z| + 8A) around a boundary, decisive points sit just outside.",
+    },
 }
